@@ -10,5 +10,7 @@ CONSTANTS
   AcceptTopBit = TRUE
   LimitPerFrame = FALSE
   PongEmpty = TRUE
+  BufSizes = {0}
+  CtlNeedsBuffer = FALSE
 INVARIANTS Emit
 CHECK_DEADLOCK FALSE
